@@ -3,6 +3,70 @@
 TECH = 'TLA+ specification model-checked by TLC; '
 
 CHECKS = {
+    'C03': dict(
+        text='MC_Terms.tla enumerates the subjects (every atom of FxSigma - all operator classes incl. dense/einsum, Toeplitz, '
+             'diagonal, broadcast-diagonal, index, pack, move-axis, reshape, ravel, QU rotation, HWP, polariser, identity, '
+             'scalar - and the templates x@y, x+y, x-y, k*x, block row/diagonal/column over list/tuple/dict/nested containers, '
+             'x@y@z, each also transposed or inverted first) and checks, with the transpose built as each class builds it, '
+             'Den(T(t)) = Den(t)^T, swapped structures, Den(T(T(t))) = Den(t), and T(t) = t for the symmetric classes. Every '
+             'subject (quick: every atom plus a stratified sample) is built on the real library: dense matrices of op.T and '
+             'op.T.T by basis probes against the transposed spec matrix, structures, `op.T is op` for symmetric classes, and '
+             '<Ax,y> = <x,A^T y> on integer vectors.',
+        note='Transposes of the iterative inverse are excluded as in the statement; the observation-matrix operator needs a '
+             'TOAST file and is not in the alphabet; exact finite parameter domain; tolerance 2e-4 (f32), 1e-9 (f64).',
+        technique=TECH + 'spec-derived transposes compared with the real op.T / op.T.T by basis probes',
+        design_ref='DESIGN.md §4 C03'),
+    'C04': dict(
+        text='FxViews.AsMatrix transcribes every as_matrix() override (identity, scalar, diagonal and its pseudo-inverse, sums, '
+             'block row/diagonal/column = hstack/block_diag/vstack in leaf order, reshape/ravel, Toeplitz, lazy inverses) and '
+             'TLC checks AsMatrix(t) = Den(t) (column j = op(e_j), leaves in pytree order, row-major) for every subject of '
+             'MC_Terms. On the real library each subject is probed on the full basis and compared with the spec matrix, '
+             'op.as_matrix() and (for every atom and a sample of composites) the generic AbstractLinearOperator.as_matrix(op) '
+             'are compared with it, op(x) = as_matrix() @ flat(x), and linearity is witnessed on three integer combinations '
+             'with mixed signs plus op(0) = 0.',
+        note='Linearity of mv is sampled (finitely many combinations), everything else follows from it; dict containers are '
+             'built in non-sorted insertion order.',
+        technique=TECH + 'spec matrix vs basis probes, as_matrix() overrides and the generic as_matrix on the real operators',
+        design_ref='DESIGN.md §4 C04'),
+    'C05': dict(
+        text='FxTerms.InS/OutS give the declared structures of every term as the code computes them (square decorators, '
+             'block/sum/composition overrides, lazy duals); for every subject of MC_Terms the real in_structure()/out_structure() '
+             'are compared (as projected pytrees: container kinds, leaf shapes, leaf dtypes) with the spec, with the structure '
+             'of what mv actually returns, with jax.eval_shape, with in_size/out_size and the promoted dtypes; the same for '
+             'op.T and op.reduce(). Three modes: 32-bit, 64-bit with float32 data, 64-bit with float64 data.',
+        note='dtype flow is decided by execution; operator parameters are created with the data dtype (the quantifier); '
+             'mixed-dtype pytrees only through block-diagonal containers of same-dtype blocks.',
+        technique=TECH + 'declared vs actual vs spec structures on the real operators in three dtype modes',
+        design_ref='DESIGN.md §4 C05'),
+    'C06': dict(
+        text='FxAlgebra.Inverse builds the inverse as each class does (scalar reciprocal, diagonal pseudo-inverse, block-wise, '
+             'orthogonal = transpose, move-axis = transpose, lazy solver otherwise, refusal of non-square operands); TLC checks '
+             'Den(I(t)) Den(t) = I = Den(t) Den(I(t)), Den(I(I(t))) = Den(t), as_matrix of the inverse, the four Penrose identities '
+             'for diagonals with zero entries, and refusal of non-square subjects. Replay: dense matrices of op.I, op.I.I, '
+             'as_matrix(op.I), op.I(op(x)) = x = op(op.I(x)), finiteness (no NaN/Inf) for zero diagonal entries, CG solves of the '
+             'symmetric positive-definite subjects (size <= 4) against the exact rational inverse.',
+        note='Solver convergence is checked on the SPD subjects of the alphabet only (numeric accuracy is outside the model).',
+        technique=TECH + 'spec-derived inverses compared with the real op.I by basis probes and round trips',
+        design_ref='DESIGN.md §4 C06'),
+    'C08': dict(
+        text='FxViews.Tags is the class table the decorators register; TLC checks on every subject that each claimed tag is true '
+             'of the exact matrix (symmetric, diagonal, triangular, tridiagonal, positive/negative semidefinite by principal '
+             'minors), orthogonal classes have M^T M = I and inverse = transpose, square classes have equal structures, symmetric '
+             'classes return themselves on transposition. Replay: every lineax tag function is queried on the real operator and '
+             'each tag it claims is checked against the real dense matrix (independently of the table, so a newly added wrong '
+             'tag is caught), `op.T is op`, class-level orthogonal/square decorators against the matrix and op.I.',
+        note='Semidefiniteness on the replay side by eigenvalues of the symmetric part; parameter domain finite.',
+        technique=TECH + 'tags queried on the real operators judged against the real and the spec matrix',
+        design_ref='DESIGN.md §4 C08'),
+    'C10': dict(
+        text='Block subjects of MC_Terms (row/diagonal/column over list, tuple, dict (non-sorted insertion), single-block and '
+             'nested containers, blocks with pytree inputs/outputs) : TLC checks Den = hstack/block_diag/vstack of the blocks in '
+             'leaf order, the kind of the transpose, block-wise inverse; the reductions of adjacent block operators are covered by '
+             'MC_Nested (C01/C07). Replay: mv on the basis, as_matrix(), .T, .I, declared structures, and refusal at construction '
+             'of rows/columns whose blocks disagree on the shared structure.',
+        note='Arity <= 3, nesting depth <= 2.',
+        technique=TECH + 'block subjects replayed on the real block operators, products through Trace_Reduce in C01/C07',
+        design_ref='DESIGN.md §4 C10'),
     'C15': dict(
         text='MC_Polar enumerates, per Stokes kind (I, QU, IQU, IQUV), every chain of length <= 3 (quick) / 4 (thorough) over '
              'four QU rotations with different angle arrays (scalar and one angle per element), their transposes, the HWP '
